@@ -679,7 +679,7 @@ Qed.
 
 Lemma wf_run_op o (r r' : rdd) : wf r -> run_op o r = Ok r' -> wf r'.
 Proof.
-  intros H E. destruct o as [m|m|n f| |]; cbn [run_op] in E.
+  intros H E. destruct o as [m|m|n f| | |g|g| | |fi]; cbn [run_op] in E.
   - unfold coalesce in E. destruct (Z.min m (num_partitions r) =? 0); [discriminate|].
     destruct (coalesce_plan m (num_partitions r)) as [nn mp].
     destruct (scatter _ _ _); [|discriminate]. injection E as <-. apply wf_mk_rdd.
@@ -689,6 +689,13 @@ Proof.
     apply (wf_map (fun ip => zip_uid_part (num_partitions r) (fst ip) (snd ip))). exact H.
   - injection E as <-. unfold map_partitions_with_index.
     apply (wf_map (fun ip => tag_index (fst ip) (snd ip))). exact H.
+  - injection E as <-. unfold map_partitions_with_index.
+    apply (wf_map (fun ip => map g (snd ip))). exact H.
+  - injection E as <-. unfold map_partitions_with_index.
+    apply (wf_map (fun ip => flat_map g (snd ip))). exact H.
+  - injection E as <-. exact H.
+  - injection E as <-. unfold zip_with_index. apply wf_parallelize.
+  - injection E as <-. exact H.
 Qed.
 
 Lemma wf_pipeline s ops (r : rdd) : run_pipeline s ops = Ok r -> wf r.
@@ -924,3 +931,95 @@ Qed.
 Lemma partitionBy_not_a_pair_lemma f (r : rdd) n kv kvs e :
   local_iter r = kv :: kvs -> key_of kv = Err e -> partitionBy f r n = Err e.
 Proof. intros H Hk. unfold partitionBy. rewrite H. cbn [pb_scatter]. rewrite Hk. reflexivity. Qed.
+
+(* ---------- a partitionBy at the end of any pipeline *)
+Lemma run_ops_app a b (r : rdd) :
+  run_ops (a ++ b) r = match run_ops a r with Ok r' => run_ops b r' | Err e => Err e end.
+Proof.
+  revert r. induction a as [|o a IH]; intros r; cbn [app run_ops]; [reflexivity|].
+  destruct (run_op o r) as [r1|e]; [apply IH|reflexivity].
+Qed.
+
+Lemma partitionBy_after_pipeline_lemma s ops (r : rdd) n f :
+  0 < n -> run_pipeline s ops = Ok r -> pairs_ok (local_iter r) ->
+  exists ps, run_pipeline s (ops ++ [OPartitionBy n f]) = Ok (mk_rdd ps) /\
+    Z.of_nat (length ps) = n /\
+    (forall j, 0 <= j < n -> nth_error ps (Z.to_nat j) = Some (filter (sel f n j) (local_iter r))) /\
+    (forall j p kv k, nth_error ps j = Some p -> In kv p -> key_of kv = Ok k -> Z.of_nat j = f k mod n).
+Proof.
+  intros Hn E Hok. unfold run_pipeline in *.
+  destruct (partitionBy_layout_lemma f r n Hn Hok) as (ps & Ep & Hl & Hnth).
+  exists ps. rewrite run_ops_app, E. cbn [run_ops run_op]. rewrite Ep.
+  split; [reflexivity|split; [exact Hl|split; [exact Hnth|]]].
+  intros j p kv k Ej Hin Hk.
+  destruct (partitionBy_place_lemma f r n ps Hn Hok Ep kv k Hk) as (_ & H). exact (H j p Ej Hin).
+Qed.
+
+(* ---------- retried tasks *)
+Lemma run_task_transient attempts plan f (ip : Z * list val) :
+  (fails_before plan < attempts)%nat ->
+  run_task attempts plan f ip = (Ok (f (fst ip) (snd ip)), repeat (fst ip) (S (fails_before plan))).
+Proof.
+  revert plan. induction attempts as [|k IH]; intros plan H; [lia|].
+  destruct plan as [|[|] plan']; cbn [run_task fails_before repeat] in *; try reflexivity.
+  destruct k as [|k']; [lia|].
+  rewrite IH by lia. reflexivity.
+Qed.
+
+Lemma run_task_gives_up attempts plan f (ip : Z * list val) :
+  (0 < attempts <= fails_before plan)%nat ->
+  run_task attempts plan f ip = (Err "RuntimeError", repeat (fst ip) attempts).
+Proof.
+  revert plan. induction attempts as [|k IH]; intros plan H; [lia|].
+  destruct plan as [|[|] plan']; cbn [fails_before] in H; try lia.
+  cbn [run_task]. destruct k as [|k']; [reflexivity|].
+  rewrite IH by lia. reflexivity.
+Qed.
+
+Definition transient_plans (plans : Z -> list bool) (r : rdd) : Prop :=
+  forall i p, In (i, p) r -> (fails_before (plans i) < max_retries)%nat.
+
+Lemma run_job_transient plans f (r : rdd) :
+  transient_plans plans r ->
+  run_job plans f r =
+    (Ok (glom (map_partitions_with_index f r)),
+     flat_map (fun ip => repeat (fst ip) (S (fails_before (plans (fst ip))))) r).
+Proof.
+  induction r as [|[i p] r IH]; intros H; [reflexivity|].
+  cbn [run_job fst snd]. rewrite run_task_transient by (apply (H i p); now left).
+  cbn [fst snd]. rewrite IH by (intros i' p' Hin; apply (H i' p'); now right).
+  reflexivity.
+Qed.
+
+(* every attempt of every task sees the index of its own partition, whatever fails *)
+Lemma run_task_indices attempts plan f (ip : Z * list val) :
+  forall i, In i (snd (run_task attempts plan f ip)) -> i = fst ip.
+Proof.
+  revert plan. induction attempts as [|k IH]; intros plan i Hin; [destruct Hin|].
+  destruct plan as [|[|] plan']; cbn [run_task snd] in Hin.
+  - destruct Hin as [<-|[]]. reflexivity.
+  - destruct k as [|k']; cbn [snd] in Hin.
+    + destruct Hin as [<-|[]]. reflexivity.
+    + destruct Hin as [<-|Hin]; [reflexivity|]. exact (IH _ _ Hin).
+  - destruct Hin as [<-|[]]. reflexivity.
+Qed.
+
+(* zipWithUniqueId evaluated by retried tasks: same ids as without faults *)
+Lemma uid_under_retries_lemma plans (r : rdd) :
+  transient_plans plans r ->
+  fst (run_job plans (zip_uid_part (num_partitions r)) r) = Ok (glom (zip_with_unique_id r)).
+Proof. intros H. rewrite run_job_transient by exact H. reflexivity. Qed.
+
+(* ---------- zipWithIndex *)
+Lemma zip_with_index_lemma (r : rdd) :
+  num_partitions (zip_with_index r) = 1 /\
+  length (local_iter (zip_with_index r)) = length (local_iter r) /\
+  forall k x, nth_error (local_iter r) k = Some x ->
+              nth_error (local_iter (zip_with_index r)) k = Some (VTup [x; VInt (Z.of_nat k)]).
+Proof.
+  unfold zip_with_index, parallelize. set (l := map _ (enum_from 0 (local_iter r))).
+  assert (E : local_iter [(0, l)] = l) by (unfold local_iter; cbn; apply app_nil_r).
+  rewrite E. unfold l. split; [reflexivity|split].
+  - now rewrite map_length, enum_from_length.
+  - intros k x H. erewrite map_nth_error by (apply enum_from_nth_error; exact H). reflexivity.
+Qed.
